@@ -552,6 +552,44 @@ func FamNegOps(t Type, emit func(Gen)) {
 	}
 }
 
+// FamNamedReturn: functions with named results (assigned on some paths only, returned bare or explicitly), and
+// loops bounded by len(array).
+func FamNamedReturn(t Type, emit func(Gen)) {
+	a, b, u, v := Var{Name: "a"}, Var{Name: "b"}, Var{Name: "u"}, Var{Name: "v"}
+	h0, h1 := Var{Name: "h0"}, Var{Name: "h1"}
+	f := Func{Name: "f", Params: []Param{{Name: "u", T: t}, {Name: "v", T: t}}, Results: []Type{t, t}, ResultNames: []string{"h0", "h1"}, Body: []Stmt{
+		Assign{Name: "h0", X: Bin{Op: "+", L: u, R: v}},
+		If{Cond: Bin{Op: "<", L: u, R: v}, Then: []Stmt{Assign{Name: "h1", X: u}}},
+		Return{}}}
+	g := Func{Name: "g", Params: []Param{{Name: "u", T: t}, {Name: "v", T: t}}, Results: []Type{t, BoolT}, ResultNames: []string{"h0", "h1"}, Body: []Stmt{
+		If{Cond: Bin{Op: "==", L: u, R: v}, Then: []Stmt{Return{}}},
+		Assign{Name: "h0", X: Bin{Op: "^", L: u, R: v}},
+		If{Cond: Bin{Op: ">", L: h0, R: v}, Then: []Stmt{Assign{Name: "h1", X: Const{T: BoolT, V: 1}}, Return{X: []Expr{Bin{Op: "+", L: h0, R: one(t)}, h1}}}},
+		Return{}}}
+	for _, ar := range [][]Expr{{a, b}, {b, a}, {a, a}} {
+		emit(Gen{"named-return", &Program{Funcs: []Func{f, mainFn(ab(t), []Type{t, t}, []Stmt{
+			MultiAssign{Names: []string{"p", "q"}, Define: true, C: Call{Fn: "f", Args: ar}},
+			Return{X: []Expr{Bin{Op: "+", L: Var{Name: "p"}, R: a}, Var{Name: "q"}}}})}}})
+		emit(Gen{"named-return", &Program{Funcs: []Func{g, mainFn(ab(t), []Type{t, BoolT}, []Stmt{
+			MultiAssign{Names: []string{"p", "q"}, Define: true, C: Call{Fn: "g", Args: ar}},
+			Return{X: []Expr{Var{Name: "p"}, Var{Name: "q"}}}})}}})
+		emit(Gen{"named-return", &Program{Funcs: []Func{f, mainFn(ab(t), []Type{t, t}, []Stmt{Return{X: []Expr{Call{Fn: "f", Args: ar}}}})}}})
+	}
+	for n := 1; n <= 4; n++ {
+		at := t
+		at.N = n
+		arr := Var{Name: "arr"}
+		body := []Stmt{
+			VarDecl{Name: "arr", T: at},
+			For{Var: "i", From: 0, To: int64(n), ToLen: "arr", Body: []Stmt{Assign{Name: "arr", Idx: Var{Name: "i"}, X: Bin{Op: "+", L: a, R: Cast{T: t, X: Var{Name: "i"}}}}}},
+			VarDecl{Name: "s", T: t},
+			For{Var: "i", From: 0, To: int64(n), ToLen: "arr", Body: []Stmt{Assign{Name: "s", X: Bin{Op: "+", L: Var{Name: "s"}, R: Bin{Op: "^", L: Index{A: arr, Idx: Var{Name: "i"}}, R: b}}}}},
+			Return{X: []Expr{Var{Name: "s"}}},
+		}
+		emit(Gen{"len-array", &Program{Funcs: []Func{mainFn(ab(t), []Type{t}, body)}}})
+	}
+}
+
 // FamCompLit: composite literals - two literals of one type with different (and with equal) elements, a literal
 // modified after another was made from the same constants, literals copied, passed and indexed.
 func FamCompLit(t Type, emit func(Gen)) {
@@ -680,6 +718,7 @@ func Statements(quick bool, emit func(Gen)) {
 		FamArray(t, emit)
 		FamCall(t, emit)
 		FamCompLit(t, emit)
+		FamNamedReturn(t, emit)
 		FamGlobals(t, emit)
 	}
 	nestTypes := []Type{Uint(3)}
